@@ -50,6 +50,12 @@ def followup(stage, lines, model, checked, release, tier, rng):
                     m2 = R(16)
                     L.append("@model forge %s z-over-min %s %s %d" % (s, sk, K.hx(m2), n))
                 L.append(K.sign_raw(s, msg, sk, 0))
+            # the degenerate key s1 = s2 = 0 (t = 0): specification-valid signatures without any hint (all rows empty)
+            zpk, zsk = K.zero_key(s, R(32), R(32))
+            zmsg = R(24)
+            zr = K.sign_raw(s, zmsg, zsk, 0)
+            _st.setdefault("zero", {})[zr] = (s, zpk, zmsg)
+            L.append(zr)
             # an honest signature with a hint row (>= 2 entries) that ends at position 255 (searched on the implementation)
             L.append("@impl scan::findsig255 %s %s %d" % (s, sk, 400))
         return L
@@ -64,6 +70,19 @@ def followup(stage, lines, model, checked, release, tier, rng):
                 v = K.verify_raw(s, sig, msg, pk)
                 _st["cases"].append((v, not kind.startswith("z-over"), kind + " zmax=" + m.split()[2]))
                 L.append(v)
+            elif ln in _st.get("zero", {}) and c.startswith("ok ") and c != "ok none":
+                s, zpk, zmsg = _st["zero"][ln]
+                p = S.P(s)
+                sig = bytearray(bytes.fromhex(c.split()[1]))
+                hoff = p.sig - p.omega - p.k
+                def emitz(w, what, expect=False):
+                    v = K.verify_raw(s, bytes(w).hex(), zmsg, zpk)
+                    _st["cases"].append((v, expect, what)); L.append(v)
+                emitz(bytearray(sig), "valid-no-hints-all-rows-empty", True)
+                if any(sig[hoff:]):
+                    _st["cases"].append((ln, None, "degenerate key produced hints"))
+                w = bytearray(sig); w[hoff + p.omega] = 1; emitz(w, "empty-rows-first-counter-raised")       # counter 1, later counters 0: decreasing
+                w = bytearray(sig); w[hoff] = 7; emitz(w, "empty-rows-index-byte-nonzero")
             elif ln.startswith("@impl scan::findsig255 ") and c.startswith("ok ") and c != "ok none":
                 s = ln.split()[2]
                 pk, sk, _m0 = _st["keys"][s]
@@ -127,6 +146,11 @@ def followup(stage, lines, model, checked, release, tier, rng):
                 if cnt[0] > 0:
                     w = bytearray(sig); w[hoff + p.omega + 1 if p.k > 1 else hoff + p.omega] = max(0, cnt[0] - 1) if p.k > 1 and cnt[1] >= cnt[0] else 0
                     emit(w, "hint-counter-decreased")
+                # every row's counter lowered below the running total (for an empty row the decoded hint vector would not change)
+                for i in range(1, p.k):
+                    if cnt[i - 1] > 0:
+                        w = bytearray(sig); w[hoff + p.omega + i] = cnt[i - 1] - 1
+                        emit(w, "hint-counter-row%d-below-running-total%s" % (i, "-empty-row" if cnt[i] == cnt[i - 1] else ""))
                 w = bytearray(sig); w[hoff + p.omega + p.k - 1] = p.omega + 1; emit(w, "hint-counter-above-omega")
                 w = bytearray(sig); w[hoff + p.omega + p.k - 1] = 255; emit(w, "hint-counter-255")
                 emit(bytearray(sig), "valid", True)
